@@ -3,7 +3,9 @@
    parcpy / parSetZero call (event "par"), or per abnormal end of a call (event "crash": never accepted).
 
    call event: id = table row; nl lanes; alias = aliasing mode of the call (Layout.tla AliasModes), aj = the lane whose cell
-     holds the broadcast scalar in modes sc / sa; sa sb sc = stride arguments, ia ib ic = index-list arguments passed;
+     holds the broadcast scalar in modes sc / sa; dlv, des, dl = designation level, family and lane (Layout.tla DesLevels /
+     DesFamilies): dlv = "base": operands a and b were given by the same base pointer (one array of esh elements), "word":
+     separate storage, the operand words related; ixo = both index lists were one object; sa sb sc = stride arguments, ia ib ic = index-list arguments passed;
      aa ab ac = per lane, the arena index the driver designated (it wrote the operand value there, resp. reads the
      result from there); ea eb ec = number of arena elements in front of the inaccessible page (minus the pad cell);
      a, b = per-lane operand words read back from the arenas before the call; r = per-lane result words (register
@@ -51,7 +53,18 @@ OkCall(e) ==
         /\ (e.alias = "cb" => e.sb = e.sc /\ e.ib = e.ic /\ Injective(row.c, n, e.sc, e.ic))
         /\ (e.alias = "sa" => LET so == CHOOSE o \in ScalarOperands(row) : row[Other(o)].kind \in MemKinds
                                IN e[so][1] = e[Other(so)][e.aj + 1])        \* the scalar IS that element
-        \* every lane: the field operation on the operand values held before the call
+        \* designation family of the two operands: the driver shaped the designations as it says
+        /\ e.dlv \in DesLevels /\ e.des \in DesFamilies /\ e.dl \in Lanes(n) /\ e.ixo \in BOOLEAN
+        /\ (e.dlv = "none") = (e.des = "none")
+        /\ (e.dlv = "base" =>
+              /\ SameBaseAllowed(row) /\ e.alias \in {"none", "ca", "cb"}
+              /\ DesRel(e.des, n, e.aa, e.ab, e.dl)
+              /\ SharedConsistent(n, e.aa, e.ab, e.a, e.b)             \* one array: a cell both designate holds one word
+              /\ e.esh = Max2(e.ea, e.eb)
+              /\ (e.alias # "none" => e.des = "eq" /\ e.ac = e.aa))    \* in place: one address map for all three
+        /\ (e.dlv = "word" => row.op # "copy" /\ e.alias = "none" /\ DesRel(e.des, n, e.a, e.b, e.dl))
+        /\ (e.ixo => e.dlv = "base" /\ row.a.kind = "index" /\ row.b.kind = "index" /\ e.ia = e.ib)
+        \* every lane: the field operation on the operand values held before the call (whatever the designation family)
         /\ IF InMemory(row.c)
              THEN \A k \in Lanes(n) : CellOk(row.op, row.c, n, e.sc, e.ic, Addr(row.c, k, e.sc, e.ic), e.r[k + 1], e.a, bv)
              ELSE \A k \in Lanes(n) : ResultOk(row.op, e.r[k + 1], e.a[k + 1], bv[k + 1])
@@ -60,16 +73,18 @@ OkCall(e) ==
         /\ e.same                                  \* no stray read influences the result
         /\ e.in_same /\ e.slack_ok                 \* nothing else written
 
-(* bulk copies: exactly `size` elements transferred / zeroed, for every thread-count argument *)
+(* bulk copies: exactly `size` elements transferred / zeroed, for every thread-count argument, in every delivery environment
+   (env: ParChunks Envs) - the team the runtime delivers is not the caller's to choose *)
 OkPar(e) ==
   LET n == e.size
       want(i) == IF e.fn = "parcpy" THEN e.src[i] ELSE Zero8
       Changed == {i - 1 : i \in {j \in 1..Len(e.d0) : e.d1[j] # e.d0[j]}}
-  IN /\ e.fn \in {"parcpy", "parSetZero"}
+  IN /\ e.fn \in {"parcpy", "parSetZero"} /\ e.env \in Envs
      /\ Len(e.d0) = n + e.pad /\ Len(e.d1) = n + e.pad /\ Len(e.src) = n
      /\ \A i \in 1..n : e.d1[i] = want(i)
      /\ \A i \in (n + 1)..(n + e.pad) : e.d1[i] = e.d0[i]
      /\ Changed = Covered(n, e.nt, TRUE)          \* the driver pre-fills dst with words that differ from the expected ones
+     /\ Changed = CoveredBy(n, e.nt, Team(e.nt, e.env))
      /\ e.src_same /\ e.slack_ok
 
 Ok(e) == CASE e.e = "call" -> OkCall(e) [] e.e = "par" -> OkPar(e) [] OTHER -> FALSE
